@@ -1,4 +1,5 @@
 import OnlVerif.Lemmas.KernelStep
+import OnlVerif.Lemmas.OnceOrder
 /-!
 # C01 — events take effect in time order, urgent first, then in trigger order
 
@@ -126,6 +127,34 @@ theorem init_wf (t0 : ℚ) : AgendaWF ({ now := t0 } : KState ℚ σ) :=
 theorem sentinel_due (s : KState ℚ σ) (at_ : ℚ) (r : EvRec ℚ) :
     ((s.newEv r).1.scheduleAt (s.newEv r).2 URGENT at_).agenda =
       { time := at_, prio := URGENT, eid := s.eid, ev := s.events.size } :: s.agenda := rfl
+
+/-- **Processing order over a whole run**: whenever a step pops entry `qi` and any later step of the run pops entry
+`qj`, then `qi` precedes `qj` strictly in `(time, priority, eid)` order — *unless* `qj` was pushed only after `qi` had
+been popped (it was not in the agenda then, and its `eid` was issued later).  This is the exact content of "never
+earlier or later than due, urgent first, strictly in trigger order": nothing that was pending is ever overtaken. -/
+theorem processed_order (body : σ → Resume → Burst ℚ σ) (fuel : Nat) (s0 s s' s2 : KState ℚ σ) (h0 : AgendaWF s0)
+    (hr : KReach body fuel s0 s) (qi : QEntry ℚ) (resti : List (QEntry ℚ)) (hqi : popMin s.agenda = some (qi, resti))
+    (hs : (step body fuel s).state? = some s') (hr2 : KReach body fuel s' s2)
+    (qj : QEntry ℚ) (restj : List (QEntry ℚ)) (hqj : popMin s2.agenda = some (qj, restj)) :
+    KeyLt qi qj ∨ (qj ∉ s.agenda ∧ s.eid ≤ qj.eid) :=
+  Once.processed_order body fuel s0 s s' s2 h0 hr qi resti hqi hs hr2 qj restj hqj
+
+/-- …in particular **the clock values at which two entries are processed are ordered like the entries**: a later
+step never runs at an earlier time. -/
+theorem processed_times_monotone (body : σ → Resume → Burst ℚ σ) (fuel : Nat) (s0 s s' s2 : KState ℚ σ) (h0 : AgendaWF s0)
+    (hr : KReach body fuel s0 s) (qi : QEntry ℚ) (resti : List (QEntry ℚ)) (hqi : popMin s.agenda = some (qi, resti))
+    (hs : (step body fuel s).state? = some s') (hr2 : KReach body fuel s' s2)
+    (qj : QEntry ℚ) (restj : List (QEntry ℚ)) (hqj : popMin s2.agenda = some (qj, restj)) :
+    qi.time ≤ qj.time := by
+  have hw : AgendaWF s := (Once.reach_agenda body fuel s0 s h0 hr).1
+  obtain ⟨q, rest, hq, hx⟩ := step_shape body fuel s s' hs
+  rw [hqi] at hq; cases hq
+  have hw' : AgendaWF s' := (openEvent_wf s qi resti hw hqi).1.ext hx
+  have hw2 := (Once.reach_agenda body fuel s' s2 hw' hr2).1
+  have hnow : s'.now = qi.time := hx.now_eq
+  rw [← hnow]
+  exact le_trans (Once.reach_now_mono body fuel s' s2 hw' hr2)
+    (hw2.due qj ((popMin_spec _ _ _ hqj).1.symm.subset List.mem_cons_self))
 
 /-! ### non-vacuity: a concrete state with a same-instant URGENT/NORMAL coincidence -/
 
